@@ -8,7 +8,8 @@ EXTENDS Ast, TLC, Json
 CONSTANT MaxDepth
 
 FailKinds == {"assert", "nil", "index", "index_empty", "zerodiv", "overflow", "remove", "remove_empty", "key_strindex",
-              "zerodiv_assign", "zerorem_assign", "zerodiv_elem", "assert_sameline", "nil_sameline"}
+              "zerodiv_assign", "zerorem_assign", "zerodiv_elem", "assert_sameline", "nil_sameline",
+              "substring_range", "substring_reversed", "delete_range", "delete_reversed", "insert_range", "radix_range"}
 Positions == {"plain", "inif", "inwhile"}
 LevelKinds == {"fn", "method", "callback"}
 
@@ -33,6 +34,13 @@ FailCore ==
       [] kind = "zerorem_assign" -> <<Let("q", I(7)), Let("z", Bin("-", V("d"), V("d"))), OpAssign(V("q"), "%", V("z")), Print(V("q"))>>
       [] kind = "zerodiv_elem" -> <<LetT("xs", "[int...]", List(<<I(7)>>)), Let("z", Bin("-", V("d"), V("d"))), Let("k0", I(0)),
                                     OpAssign(Idx(V("xs"), V("k0")), "/", V("z")), Print(V("xs"))>>
+      \* built-in range errors (d = 3 at every site)
+      [] kind = "substring_range" -> <<Let("s", S("ab")), Print(MCall(V("s"), "substring", <<I(1), Bin("+", V("d"), I(2))>>))>>
+      [] kind = "substring_reversed" -> <<Let("s", S("abcdef")), Print(MCall(V("s"), "substring", <<V("d"), I(1)>>))>>
+      [] kind = "delete_range" -> <<Let("s", S("ab")), Print(MCall(V("s"), "delete", <<I(1), Bin("+", V("d"), I(2))>>))>>
+      [] kind = "delete_reversed" -> <<Let("s", S("abcdef")), Print(MCall(V("s"), "delete", <<V("d"), I(1)>>))>>
+      [] kind = "insert_range" -> <<Let("s", S("ab")), Print(MCall(V("s"), "insert", <<S("x"), V("d")>>))>>
+      [] kind = "radix_range" -> <<Let("s", S("11")), Print(MCall(V("s"), "parse_int_radix", <<Bin("*", V("d"), I(20))>>))>>
       [] kind = "assert" -> <<Assert(Bin("==", V("d"), I(12345)))>>
       [] kind = "nil" -> <<LetT("o", "int?", Nil), Print(Get(V("o")))>>
       [] kind = "index" -> <<LetT("xs", "[int...]", List(<<I(1)>>)), Let("k", V("d")), Print(Idx(V("xs"), V("k")))>>
